@@ -17,15 +17,40 @@ class RecStruct:
         return (self.name, self.format, fields)
 
 
+class RecBytes(list):
+    """the records written to one buffer; converts to byte cells (little endian, native sizes) on demand"""
+
+    def to_cells(self):
+        import z3
+        from .minisym import SymBV, SymBool, SymInt
+        size = {'Q': 8, 'I': 4}
+        cells = []
+        for name, fmt, fields in self:
+            for ch, v in zip(fmt, fields):
+                n = size[ch]
+                if isinstance(v, bool):
+                    v = int(v)
+                if isinstance(v, int):
+                    if not 0 <= v < 1 << (8 * n):
+                        raise OverflowError(f'struct field {v} does not fit format {ch}')
+                    cells.extend(v.to_bytes(n, 'little'))
+                elif isinstance(v, SymBV):
+                    for k in range(n):
+                        cells.append(z3.simplify(z3.Extract(8 * k + 7, 8 * k, v.e)))
+                else:
+                    raise TypeError(f'cannot serialise {type(v).__name__}')
+        return cells
+
+
 class RecBuffer:
     def __init__(self):
-        self.items = []
+        self.items = RecBytes()
 
     def write(self, x):
         self.items.append(x)
 
     def getvalue(self):
-        return list(self.items)
+        return self.items
 
 
 class patched_structs:
